@@ -1118,6 +1118,17 @@ class list_t(object):
             self.get_model().field_l[k].set_val(
                 ValueScalar(int(v) & (1 << self.t.width)-1))
         else:
+            if not issubclass(type(v), type(self.t)):
+                raise Exception("Attempting to assign illegal element to object array")
+            model = self.get_model()
+            elem_m = v.get_model()
+            if k < 0:
+                k += len(self.backing_arr)
+            # Replace the element in the model as well, as append does
+            elem_m.is_declared_rand = model.is_declared_rand
+            elem_m.rand_mode = model.is_declared_rand
+            model.set_field(k, elem_m)
+            model.name_elems()
             self.backing_arr[k] = v
             
     def __str__(self):
